@@ -32,10 +32,16 @@ def main():
     try:
         rc = mod.check(a.tier, seed)
     except Exception:
-        # a crash of the machinery is not a verdict on the code; say so loudly and fail
-        traceback.print_exc()
-        print(f"[{prop}] harness error (no verdict)")
-        rc = 2
+        # The harness never crashes on the unchanged tree. If it does now, the code under test no
+        # longer behaves as the harness (and hence the model) expects: the correspondence is broken
+        # and no concrete failing input was produced.
+        tb = traceback.format_exc()
+        sys.stderr.write(tb)
+        path = common.write_replay(prop, "correspondence", {"correspondence": "harness could not drive the implementation",
+                                                           "traceback": tb[-4000:]})
+        print(f"VIOLATION property={prop} replay={path} no-failing-input-found")
+        print(f"[{prop}] FAIL: harness could not drive the implementation (see replay)")
+        rc = 1
     sys.exit(rc)
 
 
